@@ -482,7 +482,19 @@ class Evaluator:
                 return None
             if f.get("default_ctor") or not f["params"]:
                 # default-initialisation: in-class initialisers apply, everything else stays indeterminate
-                self.save(this_lv, self.default_init(self.F.T(f["parent"])))
+                fresh = self.default_init(self.F.T(f["parent"]))
+                try:
+                    cur = self.load(this_lv)
+                except Exception:
+                    cur = None
+                if isinstance(cur, Obj) and isinstance(fresh, Obj) and cur.type != fresh.type:
+                    # the (flattened) object of a derived class whose base is being default-initialised: only the
+                    # base's own members are touched, the derived members keep their (indeterminate) state
+                    fields = dict(cur.f)
+                    fields.update(fresh.f)
+                    self.save(this_lv, Obj(cur.type, fields))
+                else:
+                    self.save(this_lv, fresh)
                 return None
             raise Inconclusive("defaulted constructor " + f["name"])
         if f["kind"] == "dtor":
